@@ -276,6 +276,64 @@ theorem fresh_admitted (limit epLimit : Int) (evs : List Event) (id : Id) (k : K
   have hl0 : s.limit - 0 ≥ 1 := by omega
   simp only [step, upd_same, semAcquire, hc, hcur, hws, setPc, hl0, and_self, if_true, Bool.false_eq_true, if_false]
 
+/-- nothing can happen without a new arrival, cancellation or completion: no goroutine has an enabled internal step -/
+def Quiescent (s : State) : Prop := ∀ id ∈ s.ids, enabledBranches s id = []
+
+/-- No capacity is lost: whenever everything has settled, a request that still waits (and was not cancelled) is held back
+    by a limit that is really exhausted — its path has `endpointLimit` requests in flight, or the connection has
+    `limit` requests in flight. -/
+theorem waiting_justified (limit epLimit : Int) (evs : List Event) (w : Id) :
+    let s := run (init limit epLimit) evs
+    Quiescent s → (s.pc w = .epQueued ∨ s.pc w = .semQueued) →
+    (inFlight s (s.key w) : Int) = effective epLimit ∨ (inFlightTotal s : Int) = effective limit := by
+  intro s hq hw
+  have h : Inv s := Inv_reachable limit epLimit evs
+  have hf : QFull s := QFull_reachable limit epLimit evs
+  have hl : s.limit = effective limit := (run_limits evs _).1
+  have hel : s.epLimit = effective epLimit := (run_limits evs _).2
+  -- at quiescence an arrived request is parked, running or done
+  have hclass : ∀ j ∈ s.ids, s.pc j = .epQueued ∨ s.pc j = .semQueued ∨ s.pc j = .running ∨ ∃ r, s.pc j = .done r := by
+    intro j hj
+    have he := hq j hj
+    have hne : s.pc j ≠ .idle := (h.base.arrived j).mp hj
+    cases hp : s.pc j <;> simp [enabledBranches, hp] at he hne ⊢
+  have hsem : semHolders s = inFlightTotal s := by
+    apply List.countP_congr
+    intro j hj
+    rcases hclass j hj with hp | hp | hp | ⟨r, hp⟩ <;> simp [hp, semHolder, isRunning]
+  -- if somebody is parked in the semaphore, the semaphore is full and all its units are in flight
+  have hsemfull : ∀ j, s.pc j = .semQueued → (inFlightTotal s : Int) = effective limit := by
+    intro j hj
+    have hmem : j ∈ s.semWaiters := (h.sem.mem j).mpr hj
+    have hne : s.semWaiters ≠ [] := by intro hh; rw [hh] at hmem; cases hmem
+    have := h.sem.full hne
+    have hc := h.sem.cur
+    rw [← hl, ← hsem]; omega
+  rcases hw with hw | hw
+  · -- parked for its path
+    have hwm : w ∈ s.ids := mem_ids_of_pc h.base hw (by simp)
+    have hwq : w ∈ waitingFor s (s.key w) := mem_waitingFor.mpr ⟨hwm, hw, rfl⟩
+    cases he : s.eps (s.key w) with
+    | none => rw [(h.ep.none_ _ he).2] at hwq; cases hwq
+    | some ep =>
+      obtain ⟨hc, _, _, hqq⟩ := h.ep.some_ _ ep he
+      have hne : ep.queue ≠ [] := by rw [hqq]; intro hh; rw [hh] at hwq; cases hwq
+      have hfull := hf _ ep he hne
+      by_cases hex : ∃ j ∈ s.ids, s.pc j = .semQueued
+      · obtain ⟨j, _, hj⟩ := hex
+        exact Or.inr (hsemfull j hj)
+      · left
+        have : holders s (s.key w) = inFlight s (s.key w) := by
+          apply List.countP_congr
+          intro j hj
+          rcases hclass j hj with hp | hp | hp | ⟨r, hp⟩
+          · simp [hp, epHolder, isRunning]
+          · exact absurd ⟨j, hj, hp⟩ hex
+          · simp [hp, epHolder, isRunning]
+          · simp [hp, epHolder, isRunning]
+        rw [← hel, ← this]; omega
+  · exact Or.inr (hsemfull w hw)
+
 /-! ### Non-vacuity: concrete histories (limit 2, endpoint limit 1, three requests for one path) -/
 
 /-- the F6 scenario: owner 0 in flight, 1 and 2 parked, the non-head waiter 2 is cancelled -/
@@ -290,6 +348,10 @@ example : let s := run (init 2 1) (exampleEvs.take 5)
     s.pc 1 = .epQueued ∧ s.pc 2 = .epQueued ∧ s.key 1 = s.key 2 ∧ s.cancelled 2 = true ∧ s.ids = [0, 1, 2] := by decide
 
 example : Before [0, 1, 2] 1 2 := ⟨[0], [2], rfl, by simp⟩
+
+/-- a settled state with a waiter: 0 in flight, 1 parked behind it (hypotheses of `waiting_justified`) -/
+example : let s := run (init 2 1) [.arrive 0 7, .step 0 .grant, .arrive 1 7]
+    (∀ id ∈ s.ids, enabledBranches s id = []) ∧ s.pc 1 = .epQueued ∧ inFlight s 7 = 1 := by decide
 
 /-- the owner finishes: the head waiter is admitted, and after everybody returned the limiter is idle -/
 example : let s := run (init 2 1) (exampleEvs ++ [.finish 0, .step 0 .grant, .step 0 .grant, .step 1 .grant])
@@ -317,4 +379,5 @@ open CoapVerif.Props.C16
 #print axioms cancelled_never_starts
 #print axioms idle_after_all
 #print axioms fresh_admitted
+#print axioms waiting_justified
 end Audit
